@@ -1,6 +1,7 @@
 import B6.Driver.Common
 import B6.Driver.PbfTokens
 import B6.Model.Osm
+import B6.Model.OsmRings
 /-!
 Driver for C29 (formats: `harness/cmd/c29/main.go`).
 
@@ -9,6 +10,11 @@ Driver for C29 (formats: `harness/cmd/c29/main.go`).
                                  `point` values may differ by one E7 unit (the file's granularity)
   `world mem|pbf|compact c k id*` answer `ok nf feature*` sorted by ID          model: `world cw (ingest es)`
   `key k`                        answer `k'`                                    model: `keyForOSMKey`
+  `rings nw (id nn node*)* nm member*`  answer `ok nl (n way*)* (n node*)*nl` | `err` | `panic`
+                                 model: `B6.Model.OsmRings.rings`, `loopNodes` (a loop's nodes may come back reversed:
+                                 S2 inverts clockwise loops). For inputs in the class `disjointCycles` the
+                                 property predicate is evaluated on the implementation's loops: every loop is
+                                 a closed ring and the loops use every member way exactly once.
 
 The model is the rule set of the property (it mirrors the repaired code), so a feature that differs from
 the model's breaks the property: `propfail member-id` when a relation's members differ, `propfail rules`
@@ -182,6 +188,34 @@ def step (st : St) (op impl : String) : St × Verdict :=
       | some ifs => (st, judge true tol ifs model)
       | none => (st, .propfail "rules")
     | _, _ => (st, .bad)
+  | "rings" :: rest =>
+    let pWay : P B6.Model.OsmRings.Way := do let id ← pInt64; let ns ← counted pInt64; pure ⟨id, ns⟩
+    match parseAll (do let ws ← counted pWay; let ms ← counted pInt64; pure (ws, ms)) rest with
+    | none => (st, .bad)
+    | some (ws, ms) =>
+      let model := B6.Model.OsmRings.rings ws ms
+      let rLoops (ls : List (List Int64)) (seqs : List (List Int64)) : String :=
+        " ".intercalate ("ok" :: rCounted (fun l => rCounted (fun i => [rI i]) l) ls ++ seqs.flatMap (fun q => rCounted (fun i => [rI i]) q))
+      match model with
+      | .error e => (st, if impl == modelAnswer (.error e) then .ok else .diff (modelAnswer (.error e)))
+      | .ok loops =>
+        let seqs := loops.map fun l => (B6.Model.OsmRings.loopNodes ws l).getD []
+        match words impl with
+        | "ok" :: r =>
+          match parseAll (do
+              let ls ← counted (counted pInt64)
+              let qs ← many ls.length (counted pInt64)
+              pure (ls, qs)) r with
+          | none => (st, .bad)
+          | some (ils, iqs) =>
+            let inClass := B6.Model.OsmRings.disjointCycles ws ms
+            let pred := !inClass ||
+              (ils.all (B6.Model.OsmRings.isClosedRing ws) && permEq (fun (a b : Int64) => a == b) ils.flatten ms)
+            if !pred then (st, .propfail "rings")
+            else
+              let seqOK := listEq (fun (a b : List Int64) => a == b || a == b.reverse) iqs seqs
+              (st, if ils == loops && seqOK then .ok else .diff (rLoops loops seqs))
+        | _ => (st, .diff (rLoops loops seqs))
   | ["key", k] =>
     match unhex k with
     | some k =>
